@@ -89,6 +89,15 @@ pub struct Ns {
     opt: Option<u64>,
 }
 
+/// a value with non-canonical accepted encodings: borsh reads the elements in any order (and with duplicates)
+/// and writes them ascending
+#[derive(ProgramAccount, BorshSerialize, BorshDeserialize, Debug, Default, Clone, PartialEq)]
+#[program_account(skip_idl, program = PA, discriminant = [0xA4, 0x53, 0x42, 0x5F, 0x73, 0x65, 0x74, 0x21])]
+#[borsh(crate = "star_frame::borsh")]
+pub struct Sb {
+    set: std::collections::BTreeSet<u8>,
+}
+
 fn rd_bytes(c: &mut Cur) -> Vec<u8> {
     let n = c.next().unwrap();
     if n == -1 {
@@ -194,6 +203,22 @@ impl Val for Ns {
     fn mut4(acc: &mut BorshAccount<Self>, x: i128) {
         acc.opt = Some(x as u64);
         acc.inner.flag = !acc.inner.flag;
+    }
+}
+
+impl Val for Sb {
+    fn of_ints(c: &mut Cur) -> Self {
+        Sb { set: rd_bytes(c).into_iter().collect() }
+    }
+    fn to_ints(&self, out: &mut Vec<i128>) {
+        let v: Vec<u8> = self.set.iter().copied().collect();
+        wr_bytes(&v, out);
+    }
+    fn mut3(acc: &mut BorshAccount<Self>, x: i128) {
+        acc.set.insert(x as u8);
+    }
+    fn mut4(acc: &mut BorshAccount<Self>, x: i128) {
+        acc.set.remove(&(x as u8));
     }
 }
 
@@ -375,6 +400,7 @@ fn main() {
             1 => run::<Bv>(&mut cur),
             2 => run::<St>(&mut cur),
             3 => run::<Ns>(&mut cur),
+            4 => run::<Sb>(&mut cur),
             _ => vec![-2],
         };
         o.line(id, &obs);
